@@ -77,7 +77,7 @@ PROPS["C06"] = dict(
     trusted_base=_CTL_TB, assumptions=_CTL_ASSUME + ["RetransTimeout x 256 fits int64"],
     level_text="Kernel-checked (Props/C06.lean) over Core.step: a request hitting a receive transaction is never dispatched (state unchanged, no driver call, output = "
                "cached response or nothing); keys differing in address or sequence never alias; expiry releases the entry; retention = T x (N+1) for all N in 0..255. "
-               "Tie: S-ctl 'trans' histories + exhaustive retention sweep on the real NewRxTransaction. retained_survives_tx_timeout — the retained response survives the expiry of a TRANSMIT transaction carrying the same address-sequence key (the two kinds share the key format).",
+               "Tie: S-ctl 'trans' histories + exhaustive retention sweep on the real NewRxTransaction. retained_survives_tx_timeout — the retained response survives the expiry of a TRANSMIT transaction carrying the same address-sequence key (the two kinds share the key format). dups_replayed — ANY number of copies inside the window (beyond the retry count too) are answered from the cache, none executed, the transaction stays.",
     level_note="Trusted: Lean kernel; model of the loop body and transaction.go (checked against the code each run). Real timers are replaced by injected expiry events; "
                "'byte-identical' is modelled as 'the cached message' and checked on the wire by the harness (identical rendering of the replayed datagram).",
 )
